@@ -16,7 +16,7 @@ RULE = ("real runs without impedance: GridSize in {48,64,96,128}, StepsPerTs 50.
 ASSUMPTIONS = ["'converges' is decided after a run length fixed in units of the configured damping time (5), not asymptotically",
                "tau_disc = 0.5*delta^2 + 0.003 (3-point stencil), 0.1*delta^2 + 0.003 (4-point): calibrated, observed 0.27*delta^2 and <= 0.0026"]
 TOLERANCES = {"equilibrium": "tau_disc(n, stencil) + e1", "after_2_damping_times": "|sigma(2 t_d) - sigma(end)| <= 1.6*|z^2-1|/2*exp(-4) + 0.004",
-              "stationarity_last_20pct": "tau_disc/2 + 3e-4", "monotone_ripple": "0.7*theta relative (kick-drift splitting)"}
+              "stationarity_last_20pct": "tau_disc/2 + 3e-4", "monotone_ripple": "sum of the variances may move against the trend by 1.4*theta relative per record (kick-drift splitting)"}
 
 
 def tau_disc(n, deriv, pq=12.0):
@@ -91,15 +91,21 @@ def run_case(case):
                                (z, sq[-1], sp[-1], case["zoom2"], h2["/BunchLength/data"][-1, 0], h2["/EnergySpread/data"][-1, 0]), sig="c04:startdep", metrics=met)
             cls.append("pair")
     else:
-        ripple = 0.7 * theta
+        # Damping / diffusion act on the energy only and the rotation exchanges q and p: the individual widths therefore
+        # oscillate around their trend (relative amplitude ~ e1/theta), while the rotation-invariant sum of the variances
+        # changes monotonically (up to the O(theta) tilt of the kick-drift scheme's invariant ellipse)
+        S = sq ** 2 + sp ** 2
+        relS = np.diff(S) / S[:-1]
+        ripple = 1.4 * theta + 1e-4
+        if fpt == 1 and (relS.max() > ripple or not (sq[-1] < 0.8 * sq[0] and sp[-1] < 0.8 * sp[0])):
+            return Outcome(False, nontriv, cls, "damping only: the spread (sum of the variances) does not shrink monotonically (largest relative rise between records %.4g; widths %.4f/%.4f -> %.4f/%.4f)" %
+                           (relS.max(), sq[0], sp[0], sq[-1], sp[-1]), sig="c04:damping_only", metrics=met)
+        if fpt == 2 and (relS.min() < -ripple or not (sq[-1] > 1.1 * sq[0] and sp[-1] > 1.1 * sp[0])):
+            return Outcome(False, nontriv, cls, "diffusion only: the spread (sum of the variances) does not grow monotonically (largest relative drop %.4g; widths %.4f/%.4f -> %.4f/%.4f)" %
+                           (-relS.min(), sq[0], sp[0], sq[-1], sp[-1]), sig="c04:diffusion_only", metrics=met)
         for nm, s_ in (("bunch length", sq), ("energy spread", sp)):
-            rel = np.diff(s_) / s_[:-1]
-            if fpt == 1:
-                if rel.max() > ripple or not s_[-1] < 0.8 * s_[0]:
-                    return Outcome(False, nontriv, cls, "damping only: %s does not shrink monotonically (largest relative rise between records %.4g, start %.4f end %.4f)" % (nm, rel.max(), s_[0], s_[-1]), sig="c04:damping_only", metrics=met)
-            elif fpt == 2:
-                if rel.min() < -ripple or not s_[-1] > 1.1 * s_[0]:
-                    return Outcome(False, nontriv, cls, "diffusion only: %s does not grow monotonically (largest relative drop %.4g, start %.4f end %.4f)" % (nm, -rel.min(), s_[0], s_[-1]), sig="c04:diffusion_only", metrics=met)
+            if fpt in (1, 2):
+                continue
             else:
                 dv = np.abs(s_ - s_[0]).max() / s_[0]
                 met["none_drift"] = max(met.get("none_drift", 0), dv / (0.7 * theta + 0.01))
@@ -194,12 +200,15 @@ def run_api(case):
                 return Outcome(False, nontriv, cls, "operator level: after 2 damping times widths %.5f / %.5f are still %.4f from their limit (allowed %.4f)" % (w2[0], w2[1], dev2, allow2), sig="c04:api:rate", metrics=met)
     else:
         h = np.array(hist)
+        S = h[:, 0] ** 2 + h[:, 1] ** 2
+        relS = np.diff(S) / S[:-1]
+        ripple = 1.4 * theta + 1e-4
+        if fpt == 1 and (relS.max() > ripple or not (h[-1, 0] < 0.8 * w0[0] and h[-1, 1] < 0.8 * w0[1])):
+            return Outcome(False, nontriv, cls, "operator level, damping only: the spread does not shrink monotonically (largest relative rise of the summed variances %.3g; %.4f/%.4f -> %.4f/%.4f)" %
+                           (relS.max(), w0[0], w0[1], h[-1, 0], h[-1, 1]), sig="c04:api:damping_only")
+        if fpt == 2 and (relS.min() < -ripple or not (h[-1, 0] > 1.1 * w0[0] and h[-1, 1] > 1.1 * w0[1])):
+            return Outcome(False, nontriv, cls, "operator level, diffusion only: the spread does not grow monotonically (%.4f/%.4f -> %.4f/%.4f)" % (w0[0], w0[1], h[-1, 0], h[-1, 1]), sig="c04:api:diffusion_only")
         for j, nm in ((0, "bunch length"), (1, "energy spread")):
-            rel = np.diff(h[:, j]) / h[:-1, j]
-            if fpt == 1 and (rel.max() > 0.7 * theta or not h[-1, j] < 0.8 * w0[j]):
-                return Outcome(False, nontriv, cls, "operator level, damping only: %s does not shrink monotonically (%.4f -> %.4f, largest rise %.3g)" % (nm, w0[j], h[-1, j], rel.max()), sig="c04:api:damping_only")
-            if fpt == 2 and (rel.min() < -0.7 * theta or not h[-1, j] > 1.1 * w0[j]):
-                return Outcome(False, nontriv, cls, "operator level, diffusion only: %s does not grow monotonically (%.4f -> %.4f)" % (nm, w0[j], h[-1, j]), sig="c04:api:diffusion_only")
             if fpt == 0 and np.abs(h[:, j] - w0[j]).max() / w0[j] > 0.7 * theta + 0.01:
                 return Outcome(False, nontriv, cls, "operator level, neither: %s moves by %.4g" % (nm, np.abs(h[:, j] - w0[j]).max() / w0[j]), sig="c04:api:none")
     return Outcome(True, nontriv, cls, metrics=met)
